@@ -1,7 +1,7 @@
 """C13 — digit separators: dispatch, per-component consistency, counting protocol (DESIGN §4)."""
 from rules import sep as S
 from rules import extra as X
-from rules.core import guarded
+from rules.core import guarded, guarded_soft
 
 INFO = {
     "explanation": "For each component iterator the 16-way peek dispatch is decoded with that component's own flag bits and compared with the peek_<x>/is_<x>/peek_1|peek_n macros each arm expands (macro back-traces), including the no-skip arm for no separators; each iterator is shown to count into its own field, mask with its own flag mask and classify digits with the radix the parser uses for that component; every step over bytes just classified as digits must be followed by increment_count or be gated on buffer-level contiguity.",
@@ -21,11 +21,11 @@ def run(col, configs, tier):
         guarded(col, S.rule_contiguity_consistent, facts)
         guarded(col, S.rule_take_n_twins, facts)
         guarded(col, S.rule_slice_iterators, facts)
-        guarded(col, X.rule_slice_contiguity, facts)
+        guarded_soft(col, X.rule_slice_contiguity, facts)
         guarded(col, S.rule_end_of_buffer_neutral, facts)
         guarded(col, S.rule_lookaround_kind, facts)
         guarded(col, S.rule_run_skip_bound, facts)
         guarded(col, S.rule_skip_zeros_unit, facts)
-        guarded(col, X.rule_raw_digit_scans, facts)
-        guarded(col, X.rule_grammar_guards, facts)
-        guarded(col, X.rule_empty_component_counts_digits, facts)
+        guarded_soft(col, X.rule_raw_digit_scans, facts)
+        guarded_soft(col, X.rule_grammar_guards, facts)
+        guarded_soft(col, X.rule_empty_component_counts_digits, facts)
